@@ -473,7 +473,42 @@ class Desugarer:
         saved_unreach = self._unreach
         try:
             stm_pre = []
-            if kind in ("extend", "collect"):
+            if kind == "collect" and (dest.get("ty") or {}).get("adt") == "std::result::Result" and not (dest.get("ty") or {}).get("refs", 0):
+                # collect::<Result<C, E>>(): stop at the first Err item and return it, otherwise Ok(collection of the payloads)
+                rty_ = dest["ty"]
+                targs = rty_.get("targs") or []
+                if dest["p"] or len(targs) != 2 or targs[0].get("adt") not in SEQ + SETS or targs[0].get("refs", 0):
+                    raise _NoRewrite()
+                cty = targs[0]
+                adt = cty["adt"]
+                ety = targs[1]
+                acc = self.new_local(cty)
+                r = self.new_local(ref_ty(cty, True))
+                res_s = rty_.get("s", "?")
+                exit_b = self.new_block([self.assign(dest, {"k": "agg", "kind": "adt", "adt": "std::result::Result", "variant": "Ok", "ops": [{"move": P(acc, cty)}], "fields": ["0"]}, span)],
+                                        {"k": "goto", "t": target})
+
+                def body(it, ty, cont):
+                    v = self.new_local(ty)
+                    dsc = self.new_local(ISIZE)
+                    u = self.new_local(UNIT if adt in SEQ else BOOL)
+                    pty = ((ty or {}).get("targs") or [None, None])
+                    okp = {"move": P(v, ty, [{"dc": "Ok"}, {"i": 0, "adt": "std::result::Result", "variant": "Ok", "f": "0", "ty": (pty[0] or {}).get("s", "?")}])}
+                    erp = {"move": P(v, ty, [{"dc": "Err"}, {"i": 0, "adt": "std::result::Result", "variant": "Err", "f": "0", "ty": (pty[1] or {}).get("s", "?")}])}
+                    if adt in SEQ:
+                        m = "push" if adt == "std::vec::Vec" else "push_back"
+                        okb = self.new_block([], self.call("%s::<T, A>::%s" % (adt, m), [{"copy": P(r, ref_ty(cty, True))}, okp], P(u, UNIT), cont, span, self_ty=cty))
+                    else:
+                        okb = self.new_block([], self.call("%s::<T, S>::insert" % adt, [{"copy": P(r, ref_ty(cty, True))}, okp], P(u, BOOL), cont, span, self_ty=cty))
+                    erb = self.new_block([self.assign(dest, {"k": "agg", "kind": "adt", "adt": "std::result::Result", "variant": "Err", "ops": [erp], "fields": ["0"]}, span)],
+                                         {"k": "goto", "t": target})
+                    return self.new_block([self.use(P(v, ty), it, span),
+                                           self.assign(P(dsc, ISIZE), {"k": "discr", "place": P(v, ty), "enum": "std::result::Result", "variants": {"0": "Ok", "1": "Err"}}, span)],
+                                          {"k": "switch", "op": {"move": P(dsc, ISIZE)}, "targets": [["0", okb], ["1", erb]], "otherwise": self.unreachable()})
+                entry = self.gen(node, body, exit_b, span)
+                e2 = self.new_block([self.assign(P(r, ref_ty(cty, True)), {"k": "ref", "mut": True, "place": P(acc, cty)}, span)], {"k": "goto", "t": entry})
+                entry = self.new_block([], self.call("%s::new" % adt, [], P(acc, cty), e2, span, self_ty=cty))
+            elif kind in ("extend", "collect"):
                 if kind == "collect":
                     cty = dest.get("ty") or {}
                     if dest["p"]:
